@@ -35,7 +35,7 @@ def history(rng, version, directed):
         elif k < 0.7:
             st.append(["tick"])
         elif k < 0.82:
-            st.append(["restart"])
+            st.append(["restart", "255;255;3;0;3;"] if rng.random() < 0.3 else ["restart"])
         elif k < 0.9:
             st.append(["in", gen.valid_line(rng, version)])
         else:
